@@ -269,7 +269,7 @@ fn run_type<T: Cust>(cli: &Cli, rep: &mut Report) {
         for r in reps {
             rep.merge(r);
         }
-        let n_rand = cli.t(300_000u64, 10_000_000u64);
+        let n_rand = cli.t(300_000u64, 100_000_000u64);
         let reps = vmon::par_for(threads, 64, 1, |_| Report::new("C15", "w"), |rep, shard| {
             let mut rng = Rng::derive(seed, &[15, T::BITS as u64, T::SIGNED as u64, shard]);
             for _ in 0..n_rand / 64 {
